@@ -319,13 +319,20 @@ impl Work {
                 let file = &self.corpus[rng.below(self.corpus.len())];
                 let base0 = Cfg::with_syntax(file.syntax);
                 let n_mut = rng.range(1, 3);
-                let mut text = file.text.clone();
+                // inline comment positions are exercised by the pinned families only (DESIGN §6.3):
+                // seeded mutants start from the file with its comments removed
+                let mut text = {
+                    let cs = crate::sig::comments(&file.text);
+                    let rm: Vec<bool> = cs.iter().map(|c| !c.directive && c.shape != "shebang").collect();
+                    crate::sig::without(&file.text, &cs, &rm)
+                };
+                let stripped = text.clone();
                 for _ in 0..n_mut {
                     if let Some(t) = mutate::mutate(&mut rng, &text, &base0) {
                         text = t;
                     }
                 }
-                if text == file.text || !fmt::parses(&text, &base0) {
+                if text == stripped || !fmt::parses(&text, &base0) {
                     ctx.count("mut.rejected");
                     return;
                 }
